@@ -25,10 +25,11 @@ def race_sigs(logdir):
                     return x.lstrip("/.")
                 m = [simp(x) for x in m]
                 tops.append(m[0] if m else "?")
+            via = ":via-hedge-attempts" if block.count("hedgepolicy.(*executor") >= 2 else ""
             if tops == ["?", "?"]:
                 sig = "race:harness-only"      # no library frame on top of either stack: a race of the harness itself
             else:
-                sig = "race:" + "|".join(sorted(tops))
+                sig = "race:" + "|".join(sorted(tops)) + via
             sigs.setdefault(sig, block.strip()[:3000])
     return sigs
 
@@ -42,6 +43,11 @@ def extra_scenarios():
         out.append(scenario([hg(2, 1), to(2)], fns, [start(1)]))
         out.append(scenario([retry(1, dly=1), hg(1, 1), to(2)], fns, [start(1, 0, True), env("AsyncCancel", 2, 1)]))
         out.append(scenario([fb(), hg(2, 1), retry(1), cb("c")], fns, [start(1), start(2)]))
+    # a rate limiter parked waiting for a permit while a Timeout fires / the result is cancelled
+    for t in (1, 2, 3):
+        fns = [[fn(1, "R1", None, True)] * 2, [fn(1, "R1", None, True)] * 2]
+        out.append(scenario([to(2), rl("r", 4, wait=9)], fns, [start(1), start(2, 0, True)]))
+        out.append(scenario([rl("r", 4, wait=9), retry(1, dly=1)], fns, [start(1), start(2, 0, True), env("AsyncCancel", t, 2)]))
     return out
 
 
